@@ -186,7 +186,7 @@ func c11Build(c *C11Case) (string, []c11Unit) {
 		case "ib":
 			b.WriteString(sep)
 			w := strings.Repeat("I", it.Len)
-			fmt.Fprintf(&b, `<span style="display:inline-block;width:%dpx;margin:0 %dpx">%s</span>`, it.Len*c.FontSize, it.L, w)
+			fmt.Fprintf(&b, `<span style="display:inline-block;width:%dpx;margin:0 %dpx;text-indent:0">%s</span>`, it.Len*c.FontSize, it.L, w)
 			units = append(units, c11Unit{text: w, ib: true, left: pendingLeft, w: fs*float64(it.Len) + 2*float64(it.L)})
 			pendingLeft = 0
 			after(it.Sep)
@@ -319,6 +319,7 @@ func c11Check(ci interface{}) Verdict {
 	fs := float64(c.FontSize)
 	x0 := float64(para.ContentBoxX())
 	var got []c11GotLine
+	ibOutside := ""
 	for _, ch := range para.Children {
 		lb, ok := ch.(*bo.LineBox)
 		if !ok {
@@ -345,6 +346,13 @@ func c11Check(ci interface{}) Verdict {
 				wr.WalkBoxes(v, func(bb bo.Box) bool {
 					if tb, ok := bb.(*bo.TextBox); ok {
 						t += tb.TextS()
+						// the lines of the inline-block lie inside it, wherever its line put it
+						l, r := float64(tb.PositionX), float64(tb.PositionX)+float64(tb.Width.V())
+						cl, cr := float64(v.ContentBoxX()), float64(v.ContentBoxX())+float64(v.Width.V())
+						top, cTop, cBot := float64(tb.PositionY), float64(v.ContentBoxY()), float64(v.ContentBoxY())+float64(v.Height.V())
+						if strings.TrimSpace(tb.TextS()) != "" && (l < cl-0.01 || r > cr+0.01 || top < cTop-0.01 || top > cBot+0.01) && ibOutside == "" {
+							ibOutside = fmt.Sprintf("the text %q of an inline-block spans x=%g-%g, y=%g; the content box of the inline-block is x=%g-%g, y=%g-%g", tb.TextS(), l, r, top, cl, cr, cTop, cBot)
+						}
 					}
 					return true
 				})
@@ -365,6 +373,9 @@ func c11Check(ci interface{}) Verdict {
 	}
 	if c.Anywhere && (float64(c.Width) < fs || float64(c.Width-c.Indent) < fs) {
 		return Verdict{Excluded: "anywhere-narrower-than-a-glyph"}
+	}
+	if ibOutside != "" {
+		return Viol("inline-block:content-outside:"+c.Align, "%s\n%s", ibOutside, html)
 	}
 	want := c11Break(c, units)
 	if c.WhiteSpace == "pre-wrap" {
